@@ -139,3 +139,29 @@ pub fn choose_unoptimized_prefixes<T: NumberLike>(
 ) -> Vec<(usize, usize, T::Unsigned, T::Unsigned, Option<usize>, T::Unsigned)> {
   crate::compressor::hook_choose_unoptimized_prefixes::<T>(sorted, comp_level, flags)
 }
+
+/// The compressor's lookup table for `prefixes`: its tree shape (`L(lower,upper)` for a leaf,
+/// `N[upper:child ...]` for an inner node) and, per query, the bounds of the range found.
+pub fn table_search<T: NumberLike>(
+  prefixes: &[Prefix<T>],
+  queries: &[T::Unsigned],
+) -> (String, Vec<Option<(T::Unsigned, T::Unsigned)>>) {
+  use crate::compression_table::CompressionTable;
+  fn dump<U: UnsignedLike>(t: &CompressionTable<U>) -> String {
+    match t {
+      CompressionTable::Leaf(p) => format!("L({},{})", p.lower, p.upper),
+      CompressionTable::NonLeaf(items) => format!(
+        "N[{}]",
+        items.iter()
+          .map(|item| format!("{}:{}", item.upper, dump(&item.table)))
+          .collect::<Vec<_>>()
+          .join(" ")
+      ),
+    }
+  }
+  let table = CompressionTable::from(prefixes);
+  let found = queries.iter()
+    .map(|&u| table.search(u).ok().map(|p| (p.lower, p.upper)))
+    .collect();
+  (dump(&table), found)
+}
